@@ -244,7 +244,10 @@ def run(tier, files=None, procs=None):
     phase = cov["phase_wall_s"] = {}
     t0 = time.time()
     # 1. design level
-    design_check(tier, cov)
+    if os.environ.get("PV_C23_NO_DESIGN"):
+        cov["design_check_skipped"] = True     # binding demonstrations only
+    else:
+        design_check(tier, cov)
     phase["design"] = round(time.time() - t0, 1)
     tmp = core.mktemp("pv-c23-")
     try:
@@ -252,7 +255,7 @@ def run(tier, files=None, procs=None):
         import psyclone.parse.algorithm      # noqa (before forking)
         import psyclone.psyGen               # noqa
         import psyclone.transformations      # noqa
-        import psyclone.dynamo0p3            # noqa
+        import psyclone.dynamo0p3            # noqa: F401
         t0 = time.time()
         rejected = c23_gen.load(files or c23_gen.corpus(tier), tmp)
         if rejected:
@@ -492,8 +495,8 @@ def replay(path):
 
 
 def corruption_demo():
-    '''Trace-corruption test: cases accepted by TLC (steps of real histories)
-    with one recorded field flipped must be rejected.'''
+    '''Trace-corruption test: recorded steps of real histories (accepted by
+    TLC as conforming) with one recorded field flipped must be rejected.'''
     import copy
     core.setup_psyclone_env()
     tmp = core.mktemp("pv-c23-")
@@ -508,13 +511,15 @@ def corruption_demo():
                        ("14.15_halo_readinc.f90", True, 0)):
             init = c23_gen.work_init(member)
             status, tree, _, _ = c23_gen.code_of(member, [col, omp])
-            assert status == "ok"
-            _, pre, _, _ = c23_gen.code_of(member, [col])
+            status0, pre, _, _ = c23_gen.code_of(member, [col])
+            if status != "ok" or status0 != "ok":
+                raise core.MachineryError("corruption demo: no product")
             good.append({"kerns": init["kerns"], "dm": member[1], "from": pre,
                          "op": omp, "post": tree})
         cov = {"states": 0, "transitions": 0}
         bad, div = validate(good, tmp, cov, workers=2, tag="orig")
-        res["recorded (uncorrupted) steps rejected"] = (len(bad), len(good))
+        res["uncorrupted recorded steps: violations / divergences"] = \
+            (len(bad), len(div), len(good))
 
         def find(tree, pred):
             for n in tree:
@@ -525,37 +530,34 @@ def corruption_demo():
                     return hit
             return None
 
-        def loop_kind(c):      # the coloured loop recorded as a loop over cells
+        def loop_kind(c):      # the loop over one colour recorded as over cells
             c = copy.deepcopy(c)
             find(c["post"], lambda n: n["t"] == "colour")["t"] = "cells"
             return c
 
-        def directive_moved(c):    # parallel do recorded around the colours loop
+        def directive_moved(c):    # the parallel do recorded on the colours loop
             c = copy.deepcopy(c)
             cols = find(c["post"], lambda n: n["t"] == "colours")
-            d = cols["body"][0]
-            inner = d["body"][0]
-            newcols = dict(cols, body=[inner])
-            for k in list(cols):
-                cols[k] = dict(d, body=[newcols])[k]
+            dirn = cols["body"][0]
+            inner = dirn["body"][0]
+            moved = dict(dirn, body=[dict(cols, body=[inner])])
+            cols.clear()
+            cols.update(moved)
             return c
 
-        def access_flipped(c):     # gh_read recorded for the incremented field
+        def bound_flipped(c):      # upper bound of the colour loop flipped
             c = copy.deepcopy(c)
-            for a in c["kerns"][0]["args"]:
-                if a["acc"] == "gh_inc":
-                    a["acc"] = "gh_read"
-            c["post"] = copy.deepcopy(c["from"])
-            col1 = find(c["post"], lambda n: n["t"] == "colours")
-            return c if col1 else None
+            n = find(c["post"], lambda n: n["t"] == "colour")
+            n["x"] = "halo" if n["x"] == "edge" else "edge"
+            return c
 
-        for name, fn, expect_bad in (
-                ("loop kind colour -> cells", loop_kind, True),
-                ("parallel do moved around the colours loop", directive_moved,
-                 True)):
+        for name, fn in (("loop kind colour -> cells", loop_kind),
+                         ("parallel do moved onto the colours loop",
+                          directive_moved),
+                         ("loop bound edge <-> halo", bound_flipped)):
             mut = [fn(c) for c in good]
-            b, _ = validate(mut, tmp, cov, workers=2, tag="mut")
-            res[name] = (len(b), len(mut))
+            b, d = validate(mut, tmp, cov, workers=2, tag="mut")
+            res[name + ": violations / divergences"] = (len(b), len(d), len(mut))
     finally:
         shutil.rmtree(tmp, ignore_errors=True)
     return res
@@ -566,5 +568,5 @@ if __name__ == "__main__":
     if sys.argv[1:2] == ["replay"]:
         sys.exit(replay(sys.argv[2]))
     if sys.argv[1:] == ["corrupt"]:
-        for k, (rej, tot) in corruption_demo().items():
-            print(f"'{k}': {rej} of {tot} cases rejected by TLC")
+        for k, (nbad, ndiv, tot) in corruption_demo().items():
+            print(f"{k}: {nbad} / {ndiv} of {tot} cases")
